@@ -548,7 +548,7 @@ def values_of(domain):
 
 def leaves(domain, rng=None):
     """Leaf expressions for a domain (no sub-expressions)."""
-    L = [["Always"], ["Never"], ["IsNone"]]
+    L = [["Always"], ["Never"], ["IsNone"], ["IsInstance", []]]   # isinstance(x, ()) is valid, and False
     if domain == "int":
         for c in (0, 1, 2, 5):
             L += [["Equals", c], ["NotEquals", c], ["LessThan", c], ["GreaterThan", c]]
@@ -577,6 +577,7 @@ def leaves(domain, rng=None):
               ["Equals", []]]
     elif domain == "dict":
         L += [["Equals", {"a": 1}], ["Equals", {}], ["KeysEqual", ["a"]], ["KeysEqual", ["a", "b"]],
+              ["KeysEqual", ["b", "a"]], ["KeysEqual", ["c", "a", "b"]],
               ["KeysEqual", []], ["HasLength", 1], ["Contains", "a"], ["IsInstance", ["dict"]]]
     elif domain == "obj":
         L += [["MatchesStructureByEquality", {"a": 1}], ["MatchesStructureByEquality", {"a": 0, "s": ""}],
